@@ -7,7 +7,7 @@ import pickle
 import icontract
 import numpy as np
 
-from vmon import biv, mv, uni
+from vmon import vines, biv, mv, uni
 from vmon.core import exc_detail, exc_mech, rng_for
 from vmon.refs import arch
 
@@ -173,7 +173,7 @@ def _history(spec, ctx):
     for kind in spec['kinds']:
         ok, res = ctx.call(build, kind, rng)
         if not ok:
-            if isinstance(res, ValueError) and kind.startswith('v:'):
+            if kind.startswith('v:') and vines.is_refusal(res):
                 ctx.note('vine fit refused')
                 return
             ctx.violation('history.build', 'C15:build-%s-%s' % (kind, exc_mech(res)), dict(exc_detail(res), **where))
